@@ -10,8 +10,15 @@ from run import Case
 from regmachine import Machine
 
 PROPERTY = "C03"
-LEAN_MODULE = "PyOak.Props.C05"
-THEOREMS = ["PyOak.C05.dfs_top_down"]
+LEAN_MODULE = "PyOak.Props.C03"
+THEOREMS = ["PyOak.C03." + t for t in [
+    "freshId_free", "id_fresh_is_base", "pNew_inv", "pDetachSelf_inv", "pRestore_inv", "pForceId_inv", "pForceId_LR",
+    "gc_inv", "gc_regLive", "gc_liveRegistered", "inv_step", "regLive_step", "inv_run", "regLive_run",
+    "liveRegistered_step_partial", "liveRegistered_step", "liveRegistered_run", "replace_fail_frame",
+    "replace_fail_raised", "get_sound", "asObj_evicts_live"]]
+PARTIAL = ["liveRegistered_step for as_obj carries the decidable hypothesis noClash (no forced serialized id is occupied at "
+           "the moment it is forced); the excluded point is the known finding F19 (theorem asObj_evicts_live is its "
+           "decide-checked witness) and is replayed on the real code in every run"]
 RULE = ("random histories (<= 30 ops, 6 variables) of construct (leaf twins, inner nodes over live objects, shared "
         "children) / duplicate / dataclasses.replace / ASTNode.replace ok+raising / detach / detach_self (also on "
         "already detached) / as_dict..as_obj / alias / del+gc, for ID_DIGEST_SIZE in {1, 2, 8}; after each op the whole "
@@ -27,7 +34,49 @@ def sig_of(m: Machine, real: str, model: str | None) -> str:
     return "registry|history"
 
 
+def f19_corpus():
+    """known finding F19, replayed on the real code: ID_DIGEST_SIZE=1, a parent whose own base digest equals the id of
+    its (earlier detached) child is serialized; as_obj in an empty registry forces the parent's id over the live child"""
+    import gc
+    import pyoak.config as pconfig
+    from pyoak.node import NODE_REGISTRY, ASTNode
+    import zoo
+    old = pconfig.ID_DIGEST_SIZE
+    pconfig.ID_DIGEST_SIZE = 1
+    msg = None
+    found = False
+    try:
+        for v in range(3000):
+            gc.collect()
+            NODE_REGISTRY.clear()
+            c = zoo.Leaf(v=v)
+            c.detach_self()
+            p = zoo.Un(c)
+            if p.id != c.id:
+                del c, p
+                continue
+            found = True
+            d = p.as_dict()
+            del c, p
+            gc.collect()
+            NODE_REGISTRY.clear()
+            p2 = zoo.Un.as_obj(d)
+            kid = p2.arg
+            if ASTNode.get_any(kid.id) is not kid:
+                msg = (f"ID_DIGEST_SIZE=1: p = Un(Leaf(v={v})) serialized with p.id == child.id; Un.as_obj(p.as_dict()) in an "
+                       f"empty registry leaves the live, never detached child unreachable by lookup under its id")
+            del p2, kid, d
+            break
+    finally:
+        pconfig.ID_DIGEST_SIZE = old
+        gc.collect()
+        NODE_REGISTRY.clear()
+    yield Case("corpus:F19", None, None, True, msg or f"F19 witness search: collision found={found}, no eviction observed",
+               oracle_fail=msg, sig="live-not-registered|op=asobj|ds=1")
+
+
 def cases(rng: random.Random, tier: str):
+    yield from f19_corpus()
     n = 150 if tier == "quick" else 4000
     for _ in range(n):
         size = rng.choice([8, 8, 8, 2, 2, 1])
@@ -39,6 +88,9 @@ def cases(rng: random.Random, tier: str):
             real = m.observation()
             desc = f"ID_DIGEST_SIZE={size}: " + "; ".join(m.descr)
             ff = m.frame_fail
+            lr = m.lr_fail
         yield Case(f"history:ds{size}", line, real, nops >= 8, desc, sig="registry|history")
         if ff:
             yield Case("history-oracle", None, None, True, desc, oracle_fail=ff, sig="registry|oracle|" + ff[:40])
+        yield Case("live-registered-oracle", None, None, nops >= 8, desc, oracle_fail=lr[1] if lr else None,
+                   sig=lr[0] if lr else "live-not-registered")
